@@ -7,7 +7,7 @@ usage: mutant.py confirm <worktree> <mutdir>            -> prints CONFIRMED / RE
 """
 import json, os, re, shutil, subprocess, sys, time
 
-ENV = dict(os.environ, CARGO_NET_OFFLINE="true")
+ENV = dict(os.environ, CARGO_NET_OFFLINE="true", RUST_LIB_BACKTRACE="0")
 
 def sh(cmd, cwd=None, timeout=3600):
     p = subprocess.run(cmd, shell=True, cwd=cwd, env=ENV, stdout=subprocess.PIPE, stderr=subprocess.STDOUT, text=True, timeout=timeout)
